@@ -157,6 +157,21 @@ def off1(m, run):
 def check(m, run):
     tm = m.func('_tessellate.make_triangle_mesh')
     qm = m.func('_tessellate.make_quad_mesh')
+    # make_triangle_mesh is decided on labelled grids of every sample size (MSH2 inside the SKEL driver: which point, which parametric
+    # position and which id every vertex carries, which corners every cell hands to the tessellation function); the rules that read
+    # the allocation / running-sum spelling of the pinned tree corroborate
+    from .. import skel_drivers
+    n0 = len(run.obs)
+    skel_drivers.c15(m, run)
+    msh_ok = all(o.ok for o in run.obs[n0:])
+    with run.corroborating(msh_ok, 'MSH2 (SK1.index-safety on labelled grids)', rules=('LY1.prealloc-stride', 'PJ1.step-of-own-direction', 'FN1.consecutive-numbering', 'QC1.cell-corners')):
+        _triangle_mesh_syntactic(m, run, tm)
+    cq, arr_q = quad_corners(run, qm, lambda c: norm(c.func) == 'Quad')
+    rl.ly1_prealloc(m, run, qm, arrays={arr_q: ast.parse('size_v', mode='eval').body})
+    _rest(m, run)
+
+
+def _triangle_mesh_syntactic(m, run, tm):
     sc = ra.scope_of(tm)
     # row lengths: points -> size_v ; vertices -> the local bound to the number of v vertices
     vrow = varr = None
@@ -170,14 +185,20 @@ def check(m, run):
     if vrow is None:
         raise AnalysisError('make_triangle_mesh: vertex array allocation (u count * v count) not found')
     ct, arr_t = quad_corners(run, tm, lambda c: isinstance(c.func, ast.Name) and ra.scope_of(tm).api_origin(c.func) == 'tessellate_func')
-    cq, arr_q = quad_corners(run, qm, lambda c: norm(c.func) == 'Quad')
     rl.ly1_prealloc(m, run, tm, arrays={params_of(tm.node)[0]: ast.parse('size_v', mode='eval').body, varr: vrow})
-    rl.ly1_prealloc(m, run, qm, arrays={arr_q: ast.parse('size_v', mode='eval').body})
-    run.floor('LY1.prealloc-stride', 9, 'source point, 4 + 4 quad corners')
     pj1(run, tm)
     fn1(m, run, tm)
+
+
+def _rest(m, run):
+    run.floor('LY1.prealloc-stride', 9, 'source point, 4 + 4 quad corners')
     tv1(m, run)
-    ag6(m, run)
+    from .. import skel_drivers as _sd
+    n0 = len(run.obs)
+    _sd.mx2(m, run)
+    mx_ok = all(o.ok for o in run.obs[n0:])
+    with run.corroborating(mx_ok, 'MX2', rules=('AG6.face-record', 'AG6.face-index-offset', 'AG6.off-header')):
+        ag6(m, run)
     st1(m, run)
     c17.ag5(m, run)
     wn1(m, run)
@@ -191,11 +212,6 @@ def check(m, run):
     exporters = [m.func('exchange.' + n) for n in ('export_obj_str', 'export_off_str', 'export_stl_str')]
     ra.axk_keyword_suffix(m, run, exporters)
     run.floor('AXK.keyword-axis', 6, 'sample sizes copied per direction in the three mesh exporters')
-    try:
-        from .. import skel_drivers
-        skel_drivers.c15(m, run)
-    except ImportError:
-        run.note('SK1', '_tessellate', 'SKEL drivers not available')
 
 
 def quad_corners(run, fi, is_cell_call):
